@@ -272,6 +272,68 @@ class StreamGet(Task):
                                                              to_z3(veq_read(ctx, got, rd(st + t * stp)))), "P")
 
 
+class StreamIterSel(StreamGet):
+    """LevelDataStream.iter (the on-demand iterator): the same selection semantics as __getitem__, the results handed back
+    through the pool's ordered iterator - the selected boxes in the requested order."""
+    qual = STR + "iter"
+
+    def __init__(self, form):
+        StreamGet.__init__(self, form)
+        self.name = f"LevelDataStream.iter[{form}]"
+
+    def post(self, ex, inp, out):
+        if out.kind == "ret" and isinstance(out.value, SeqIter):
+            ex.ctx.oblige("post.iterator-starts-at-the-first-selected-box", veq(ex.ctx, out.value.pos, 0), "P")
+            out.value = out.value.seq        # what the iterator yields, in order
+        StreamGet.post(self, ex, inp, out)
+
+
+class CookerGetitem(Task):
+    """PlotfileCooker.__getitem__: the selector gets the cooker's own field table, cell tables, level limit, boxes, cell sizes and
+    domain origin, and the key unchanged."""
+    prop = "C01"
+    reach = "U"
+    qual = PC + "PlotfileCooker.__getitem__"
+
+    def __init__(self):
+        self.name = "PlotfileCooker.__getitem__"
+
+    def setup(self, ex):
+        calls = []
+
+        def ctor(ex_, args, kw):
+            calls.append((list(args), dict(kw)))
+            return Record(PC + "LevelDataSelector")
+        self.contracts = {PC + "LevelDataSelector.__new__": ctor}
+        at = {k: Opaque(k, "obj") for k in ("fields", "cells", "boxes", "dx")}
+        glo = [z3.Real(f"glo{d}") for d in range(3)]
+        L = z3.Int("L")
+        key = Opaque("key", "obj")
+        self_ = Record(PC + "PlotfileCooker", limit_level=L, geo_low=list(glo), **at)
+        return {"self": self_, "args": [key], "calls": calls, "at": at, "glo": glo, "L": L, "key": key}
+
+    def post(self, ex, inp, out):
+        ctx = ex.ctx
+        ctx.oblige("raises-nothing", out.kind == "ret", "P", note=str(out.exc) if out.kind != "ret" else "")
+        if out.kind != "ret":
+            return
+        c = inp["calls"]
+        ok = len(c) == 1 and len(c[0][0]) + len(c[0][1]) == 7
+        ctx.oblige("post.one-selector-built-with-seven-arguments", ok, "P")
+        if not ok:
+            return
+        a = c[0][0]
+        names = ["fields", "cells", "field_arg", "limit_level", "boxes", "dx", "geo_low"]
+        got = dict(zip(names, a))
+        got.update(c[0][1])
+        at = inp["at"]
+        ctx.oblige("post.own-field-and-cell-tables", got.get("fields") is at["fields"] and got.get("cells") is at["cells"], "P")
+        ctx.oblige("post.key-unchanged", got.get("field_arg") is inp["key"], "P")
+        ctx.oblige("post.level-limit", veq(ctx, got.get("limit_level"), inp["L"]), "P")
+        ctx.oblige("post.boxes-and-cell-sizes", got.get("boxes") is at["boxes"] and got.get("dx") is at["dx"], "P")
+        ctx.oblige("post.domain-origin", veq(ctx, list(ex.as_iterable(got.get("geo_low"))), inp["glo"]), "P")
+
+
 def api_tasks(tier):
     out = []
     for nf in (1, 3):
@@ -280,6 +342,8 @@ def api_tasks(tier):
     out.append(SelectorLevel())
     out += [StreamInit(k) for k in ("int", "slice", "list")]
     out += [StreamGet(f) for f in ("int", "slice", "slice-step", "list1", "list2")]
+    out += [StreamIterSel(f) for f in ("int", "slice", "slice-step", "list2")]
+    out.append(CookerGetitem())
     return out
 
 
